@@ -428,9 +428,10 @@ func (vc *VC) binopMath(pos token.Pos, op token.Token, a, b string, bits int, si
 		res.T = fmt.Sprintf("(>= %s %s)", a, b)
 	case token.AND:
 		// mask with 2^k-1 only
-		if k, ok := litInt(b); ok && k >= 0 && (k+1)&k == 0 && !signed {
+		if k, ok := litInt(b); ok && k >= 0 && (k+1)&k == 0 {
+			// x & (2^k - 1) is x mod 2^k, for two's complement negatives too (SMT mod is non-negative)
 			res.T = fmt.Sprintf("(mod %s %d)", a, k+1)
-		} else if k, ok := litInt(a); ok && k >= 0 && (k+1)&k == 0 && !signed {
+		} else if k, ok := litInt(a); ok && k >= 0 && (k+1)&k == 0 {
 			res.T = fmt.Sprintf("(mod %s %d)", b, k+1)
 		} else if k, ok := litInt(b); ok && k > 0 && k&(k-1) == 0 && !signed {
 			// single bit test: ((a div k) mod 2) * k
